@@ -79,6 +79,14 @@ func worlds(tier string) []world {
 					tc := w.twin.ChangeZoom(r.h, r.v+1)
 					w.adds = append(w.adds, tc[0], tc[len(tc)-1])
 				}
+				// aliases: voxels at another zoom whose x, y, f numbers coincide with the root's (a shortcut
+				// keyed on the numbers without the zoom would confuse them with the root)
+				if r.h+1 <= 35 {
+					w.adds = append(w.adds, ref.Vox{H: r.h + 1, X: root.X, Y: root.Y, V: r.v, F: root.F})
+				}
+				if r.v+1 <= 35 {
+					w.adds = append(w.adds, ref.Vox{H: r.h, X: root.X, Y: root.Y, V: r.v + 1, F: root.F})
+				}
 				ws = append(ws, w)
 			}
 		}
